@@ -604,6 +604,15 @@ fn fileloads(out: &mut Out, r: &mut Rng, count: u64) {
                         rx.verif_wait(r.below((flen - t - 2000) as u64) as usize);
                     }
                 }
+                // ... where the program that was running may just have changed the border below the last visible line
+                if m_emu == m_file && r.chance(1, 4) {
+                    let t = rx.verif_frame_clocks();
+                    let bottom = flen - 6000;
+                    if t < bottom {
+                        rx.verif_wait(bottom - t + r.below(4000) as usize);
+                        out_port(&mut rx, 0x00FE, r.u8());
+                    }
+                }
                 let t_rx = rx.verif_frame_clocks();
                 let before = machine_state(&mut rx);
                 let b2 = bytes.clone();
@@ -658,6 +667,12 @@ fn fileloads(out: &mut Out, r: &mut Rng, count: u64) {
                     // own clock goes on; SZX: the file's) shows the file's screen already
                     let from_t = if is_sna { t_rx } else { cycles as usize };
                     let (pf, pm) = display_sample2(&mut rx, r, &avoid, None, Some((from_t, m_file)));
+                    // "border": what is painted two frames on, not only what is reported
+                    let painted: std::collections::BTreeSet<u8> = {
+                        let fb = rx.border_buffer();
+                        (0..fb.h).filter(|y| *y < 20 || *y + 20 >= fb.h).flat_map(|y| fb.px[y * fb.w..(y + 1) * fb.w].iter().map(|c| *c as u8).collect::<Vec<u8>>()).collect()
+                    };
+                    ev["border_painted"] = json!(painted);
                     ev["pix_first"] = json!(pf);
                     ev["first_from"] = json!([from_t, t_rx, cycles]);
                     ev["pix"] = json!(pm);
